@@ -17,3 +17,7 @@ if '--update' in sys.argv:
     if missing: sys.exit('not found in the source: ' + ', '.join(missing))
     json.dump(allc, open(modelled.STORE, 'w'), indent=1, sort_keys=True)
     print('written', modelled.STORE, len(allc))
+    json.dump(modelled.tree_current(repo), open(modelled.TREE_STORE, 'w'), indent=1, sort_keys=True)
+    print('written', modelled.TREE_STORE)
+else:
+    print('modules changed since the last validation:', modelled.tree_changed(repo))
